@@ -9,7 +9,7 @@ import docs
 
 LEAN_MODULES = ['GoSnaps.Props.C16', 'GoSnaps.Props.Tie.Flows', 'GoSnaps.Props.Tie.Matchers',
                 'GoSnaps.DriverX', 'GoSnaps.Lemmas.JsonPath', 'GoSnaps.Props.C16Json',
-                'GoSnaps.Lemmas.JsonEndToEnd', 'GoSnaps.Props.Tie.JsonEndToEnd']
+                'GoSnaps.Lemmas.JsonEndToEnd', 'GoSnaps.Props.Tie.JsonEndToEnd', 'GoSnaps.Props.Tie.Wrappers']
 
 LEAVES = ['big', 'a', 's', 'o.x', 'o.y.0', 'l.0.k', 'n', 'deep.er.est', 'filter[status]', 'filter.status', 'ids[0]', 'ids.0', 'nx', 'o.xs']
 # leaves whose path TEXT is a prefix of another leaf's path without being an ancestor of it (id / idempotencyKey)
